@@ -15,7 +15,7 @@ PRIM, SUBS = 'rsa1024a', ['rsa1024b', 'rsa2048b', 'rsa2048a']
 PW = 'usage passphrase'
 
 
-def build_key(pflags, subflags, secret=True, newer=None, second_uid=None, uid_names=None):
+def build_key(pflags, subflags, secret=True, newer=None, second_uid=None, uid_names=None, unhashed_flags=None):
     """Reference-written key. subflags: list of flag values (None = no key-flags subpacket).
     newer: optional (index, flags): a second, more recent binding (index >= 0) or self-certification (index -1) with other flags.
     second_uid: flags of a second identity."""
@@ -31,6 +31,9 @@ def build_key(pflags, subflags, secret=True, newer=None, second_uid=None, uid_na
             hashed += wire.subpacket(27, bytes([flags]))
         if typ == 0x13:
             hashed += wire.subpacket(11, b'\x09\x07') + wire.subpacket(21, b'\x08\x0a') + wire.subpacket(22, b'\x02\x00')
+        if unhashed_flags is not None:
+            # a key-flags subpacket in the unhashed area, which is not signed and which anyone can add: it grants and withdraws nothing
+            unhashed = unhashed + wire.subpacket(27, bytes([unhashed_flags]))
         return wire.packet(2, rsig.make(key, typ, 8, hashed, rsig.sp_issuer(rkeys.keyid(key)) + unhashed, subj))
     out = bytearray(rkeys.secret_packet(prim) if secret else rkeys.public_packet(prim))
     uid1 = uid_names[0] if uid_names else b'First Identity <first@example.org>'
@@ -99,6 +102,8 @@ class Prop(object):
         for a in range(len(FLAGSETS)):
             u.append(('newer', {'old': a}))
         u.append(('users', {}))
+        for pi in range(len(PRIMARY_SETS)):
+            u.append(('unhashed', {'p': pi}))
         u.append(('preconditions', {}))
         for first in LIVE_MENU:
             u.append(('live', {'first': first, 'depth': 3 if tier == 'quick' else 4}))
@@ -313,6 +318,22 @@ class Prop(object):
             self._decrypt_each(r, blob, prim, subs, label, dict(case, only=list(combo)))
         r.dim('primary', pname)
         r.samples.append({'primary': pname, 'subkeys': [[FLAGSETS[i][0] for i in c] for c in combos[:3]]})
+        return r
+
+    def c_unhashed(self, case):
+        """Every configuration of a primary key and one subkey whose self-signatures also carry, in their unsigned unhashed area, a key-flags subpacket
+        that says the opposite (everything / nothing): the capabilities are those of the hashed, signed subpacket."""
+        r = Res()
+        pname, pflags = PRIMARY_SETS[case['p']]
+        for a, (fname, fl) in enumerate(FLAGSETS):
+            for un in (0x3f, 0x00):
+                if case.get('only') is not None and [a, un] != case['only']:
+                    continue
+                blob, prim, subs = build_key(pflags, [fl], unhashed_flags=un)
+                label = 'primary flags %s, subkey flags %s, unhashed key-flags subpacket 0x%02x on every self-signature' % (pname, fname, un)
+                self._ops(r, blob, prim, subs, [pflags, fl], label, {'part': 'unhashed'}, dict(case, only=[a, un]), forms=('public', 'private'), enforce_opts=(True,))
+        r.dim('primary', pname)
+        r.samples.append({'primary': pname, 'unhashed_flag_values': ['0x3f', '0x00']})
         return r
 
     def _decrypt_each(self, r, blob, prim, subs, label, case):
